@@ -51,18 +51,29 @@ fn app_for(maxw: usize) -> AppVersion {
 
 /// The list handed to the constructor: `count` shares laid out as a square of width isqrt(count)
 /// (data quadrant with namespaces sorted along rows and columns), with one defect.
-fn shape_input(api: &str, count: usize, size: &str, order: &str) -> Vec<Vec<u8>> {
+fn shape_input(api: &str, count: usize, size: &str, order: &str, oline: usize, opos: usize) -> Vec<Vec<u8>> {
     let w = isqrt(count).max(1);
     let half = if api == "new" { w / 2 } else { w };
     let pal = palette();
     let mut out = Vec::with_capacity(count);
+    // dense namespaces for an order defect: along the defective axis the namespace index is
+    // line * half + position (so the orthogonal axis stays sorted whatever happens inside a line), and
+    // the entries at positions opos and opos + 1 of line `oline` are exchanged: exactly one inversion
+    let dense = |r: usize, c: usize| -> Namespace {
+        let (line, pos) = if order == "row" { (r, c) } else { (c, r) };
+        let mut p = pos;
+        if line == oline && pos == opos {
+            p = opos + 1;
+        } else if line == oline && pos == opos + 1 {
+            p = opos;
+        }
+        let idx = line * half + p + 1;
+        Namespace::new_v0(&[0x20, (idx >> 16) as u8, (idx >> 8) as u8, idx as u8]).unwrap()
+    };
     for t in 0..count {
         let (r, c) = (t / w, t % w);
         if r < half && c < half {
-            let mut ns = pal[((r + c) * pal.len() / (2 * half).max(1)).min(pal.len() - 1)];
-            if half >= 2 && ((order == "row" && r == 0 && c == half - 1) || (order == "col" && c == 0 && r == half - 1)) {
-                ns = Namespace::TRANSACTION; // smaller than everything before it on that line
-            }
+            let ns = if order == "none" { pal[((r + c) * pal.len() / (2 * half).max(1)).min(pal.len() - 1)] } else { dense(r, c) };
             out.push(cheap_share(&ns, t));
         } else {
             let mut v = vec![0xA5u8; SHARE_SIZE];
@@ -127,7 +138,8 @@ pub fn replay(args: &Args) {
                 continue;
             }
             let app = app_for(maxw);
-            let input = shape_input(api, count, size, order);
+            let (oline, opos) = (us(&c["oline"]), us(&c["opos"]));
+            let input = shape_input(api, count, size, order, oline, opos);
             let ods_copy = if api == "from_ods" && demand == "accept" { Some(input.clone()) } else { None };
             let res = catch(|| {
                 if api == "new" {
@@ -165,10 +177,11 @@ pub fn replay(args: &Args) {
             sum.case("C08", Some(format!("shape/{ci}")), || json!({"case": c, "got": got}));
             if got != demand {
                 let gotk = if got.starts_with("panic") { panic_kind(&got) } else { got.clone() };
-                let class = json!({"kind": "eds-shape", "api": api, "size": size, "order": order, "demand": demand, "got": gotk});
+                let class = json!({"kind": "eds-shape", "api": api, "size": size, "order": order, "demand": demand, "got": gotk,
+                                   "inversion_at": if order == "none" { "-" } else if opos % 2 == 0 { "even-odd" } else { "odd-even" }});
                 let ck = class.to_string();
                 *classes.entry(ck.clone()).or_default() += 1;
-                viols.push((ck, json!({"why": format!("{api} with {count} shares (size defect {size}, order defect {order}), max width {maxw}: demanded {demand}, code says {got}"),
+                viols.push((ck, json!({"why": format!("{api} with {count} shares (size defect {size}, order defect {order} line {oline} pos {opos}), max width {maxw}: demanded {demand}, code says {got}"),
                                        "class": class, "case": c, "got": got})));
             }
         } else {
